@@ -1256,6 +1256,31 @@ pub fn o_greeting(plan: &Plan, out: &Outcome, vs: &mut Vec<Violation>) {
     }
 }
 
+/// second opinion: mysql_common's deserialisers must accept the same packets and agree with the
+/// harness's decoder on every field (DESIGN 2.4)
+pub fn o_myc(plan: &Plan, out: &Outcome, vs: &mut Vec<Violation>) {
+    if out.model.hostile {
+        return;
+    }
+    if let Some(Ok(g)) = &out.w.greeting {
+        if let Err(e) = crate::myc2::check_greeting(g) {
+            vs.push(v("decode-myc", "greeting", format!("greeting: {}", e)));
+        }
+    }
+    for (u, r) in out.w.replies.iter().enumerate() {
+        if let Some(Ok(d)) = r {
+            if let Err(e) = crate::myc2::check_reply(d) {
+                vs.push(v(
+                    "decode-myc",
+                    format!("{}: {}", unit_name(plan, u), erase_nums(&e)),
+                    format!("unit {} ({}): second-opinion decoder: {}", u, unit_name(plan, u), e),
+                ));
+                return;
+            }
+        }
+    }
+}
+
 pub fn all(plan: &Plan, out: &Outcome) -> Vec<Violation> {
     let mut vs = Vec::new();
     o_end(plan, out, &mut vs);
@@ -1266,5 +1291,6 @@ pub fn all(plan: &Plan, out: &Outcome) -> Vec<Violation> {
     o_framing(out, &mut vs);
     o_api(plan, out, &mut vs);
     o_greeting(plan, out, &mut vs);
+    o_myc(plan, out, &mut vs);
     vs
 }
